@@ -52,10 +52,11 @@ def split_waterfall_generator(waterfall_fn, fchans, tchans=None, f_shift=None):
                           time samples in the observation')
 
     # Note that df is negative!
-    f_start, f_stop = fch1, fch1 + fchans * df
-
-    # Iterates down frequencies, starting from highest
-    while np.abs(f_stop - fch1) <= np.abs(nchans * df):
+    # Iterates down frequencies, starting from highest. Count the windows with
+    # integers, so that rounding in the frequencies cannot drop the last one
+    for i in range((nchans - fchans) // f_shift + 1):
+        f_start = fch1 + i * f_shift * df
+        f_stop = f_start + fchans * df
         fmin, fmax = np.sort([f_start, f_stop])
         waterfall = Waterfall(waterfall_fn,
                               f_start=fmin,
@@ -64,9 +65,6 @@ def split_waterfall_generator(waterfall_fn, fchans, tchans=None, f_shift=None):
                               t_stop=tchans)
 
         yield waterfall
-
-        f_start += f_shift * df
-        f_stop += f_shift * df
 
 
 def split_fil(waterfall_fn, output_dir, fchans, tchans=None, f_shift=None):
